@@ -433,7 +433,7 @@ theorem C11_header_rejects (code : List Nat) (version typA typB : Nat) (parses :
     (hok : decodeHeader code version typA typB parses hashOf f = .ok h) :
     slice f 0 code.length = code ∧ readLE f posVersion 8 = version ∧ parses (slice f posPubKey 33) = true ∧
     slice f posPubKeyHash 32 = hashOf (slice f posPubKey 33) ∧ (f posType = typA ∨ f posType = typB) ∧
-    h.bl = f posBitLength ∧ h.checkpoint = readLE f posCheckpoint 8 ∧ h.pk = slice f posPubKey 33 := by
+    h.bl = f posBitLength ∧ h.checkpoint = readLE f posCheckpoint 8 ∧ h.pk = slice f posPubKey 33 ∧ h.typ = f posType := by
   unfold decodeHeader at hok
   by_cases h1 : slice f 0 code.length = code <;> simp only [h1, ne_eq, not_true_eq_false, not_false_eq_true, if_true, if_false] at hok
   · by_cases h2 : readLE f posVersion 8 = version <;> simp only [h2, not_true_eq_false, not_false_eq_true, if_true, if_false] at hok
@@ -443,7 +443,7 @@ theorem C11_header_rejects (code : List Nat) (version typA typB : Nat) (parses :
           · cases hok
           · simp only [Except.ok.injEq] at hok
             subst hok
-            refine ⟨h1, h2, h3, h4, ?_, rfl, rfl, rfl⟩
+            refine ⟨h1, h2, h3, h4, ?_, rfl, rfl, rfl, rfl⟩
             omega
         · cases hok
       · simp at h3
